@@ -24,6 +24,7 @@
 #include <ygm/container/detail/reducing_adapter.hpp>
 #include <cstdio>
 #include <fstream>
+#include <functional>
 #include <map>
 #include <sstream>
 #include <string>
@@ -41,6 +42,12 @@ static std::map<long, long> g_tally;
 static counting_set<long>  *g_cset = nullptr;
 static void                *g_red = nullptr;
 static int                  g_lib_depth = 0;
+// cache traces (VERIF_CTRACE=1): every operation on the write-combining caches of counting_set and of the reducing adapter
+// over RM, with the state of the touched slot afterwards; replayed against coq/Cache.v (C15, C16)
+static bool                               g_ctrace = false;
+static int                                g_me = -1;
+static std::function<std::string(long)>   g_cslot, g_rslot;
+static std::function<bool(long)>          g_rcached;      // does a reduce of this key on this rank go through the cache?
 
 static void line(const std::string &s) {
   fputs(s.c_str(), stdout);
@@ -100,13 +107,25 @@ int main(int argc, char **argv) {
     bag<long>                B(world);
     array<long>              A(world, alen, 5);
     g_cset = &C;
+    g_me = me;
+    g_ctrace = getenv("VERIF_CTRACE") != nullptr;
+    g_cslot = [&C](long k) {
+      auto &e = C.m_count_cache[std::hash<long>{}(k) % C.count_cache_size];
+      return std::to_string(e.first) + " " + std::to_string(e.second);
+    };
     auto plus = [](const long &a, const long &b) { return a + b; };
     auto redm = detail::make_reducing_adapter(RM, plus);
     auto reda = detail::make_reducing_adapter(RARR, plus);
     using redm_t = decltype(redm);
     g_red        = &redm;
+    g_rslot = [&redm](long k) {
+      auto &e = redm.m_cache[std::hash<long>{}(k) % redm.cache_size];
+      return std::to_string(e.key) + " " + std::to_string(e.value) + " " + std::to_string((int)e.occupied);
+    };
+    g_rcached = [&RM, me](long k) { return RM.owner(k) != me; };
 
     for (long e = 1; e <= nepochs; ++e) {
+      if (g_ctrace) line("CT " + std::to_string(me) + " BE");     // no barrier runs on this rank until the next BB
       for (const Op &o : ops) {
         if (o.epoch != e || o.rank != me) continue;
         const auto &a = o.a;
@@ -132,10 +151,28 @@ int main(int argc, char **argv) {
         else if (c == "SXC") S.async_exe_if_contains(a[0], [](const long &k, long id) { g_tally[id]++; }, o.id);
         else if (c == "TI") T.async_insert(a[0]);
         else if (c == "TE") T.async_erase(a[0]);
-        else if (c == "CI") { for (long i = 0; i < a[1]; ++i) C.async_insert(a[0]); }
-        else if (c == "CH") world.async((int)a[0], [](long k, long n) { for (long i = 0; i < n; ++i) g_cset->async_insert(k); }, a[1], a[2]);
-        else if (c == "RA") redm.async_reduce(a[0], a[1]);
-        else if (c == "RH") world.async((int)a[0], [](long k, long v) { ((redm_t *)g_red)->async_reduce(k, v); }, a[1], a[2]);
+        else if (c == "CI") {
+          for (long i = 0; i < a[1]; ++i) {
+            if (g_ctrace) line("CT " + std::to_string(me) + " M C " + std::to_string(a[0]));
+            C.async_insert(a[0]);
+            if (g_ctrace) line("CT " + std::to_string(me) + " E C " + g_cslot(a[0]));
+          }
+        }
+        else if (c == "CH") world.async((int)a[0], [](long k, long n) {
+          for (long i = 0; i < n; ++i) {
+            g_cset->async_insert(k);
+            if (g_ctrace) line("CT " + std::to_string(g_me) + " H C " + std::to_string(k) + " " + g_cslot(k));
+          } }, a[1], a[2]);
+        else if (c == "RA") {
+          bool t = g_ctrace && g_rcached(a[0]);
+          if (t) line("CT " + std::to_string(me) + " M R " + std::to_string(a[0]) + " " + std::to_string(a[1]));
+          redm.async_reduce(a[0], a[1]);
+          if (t) line("CT " + std::to_string(me) + " E R " + g_rslot(a[0]));
+        }
+        else if (c == "RH") world.async((int)a[0], [](long k, long v) {
+          ((redm_t *)g_red)->async_reduce(k, v);
+          if (g_ctrace && g_rcached(k)) line("CT " + std::to_string(g_me) + " H R " + std::to_string(k) + " " + std::to_string(v) + " " + g_rslot(k));
+        }, a[1], a[2]);
         else if (c == "RB") reda.async_reduce((size_t)a[0], a[1]);
         else if (c == "BI") B.async_insert(a[0]);
         else if (c == "BID") B.async_insert(a[0], (int)a[1]);
@@ -147,6 +184,7 @@ int main(int argc, char **argv) {
         else if (c == "AM") A.async_minus((size_t)a[0], a[1]);
         else if (c == "AI") A.async_increment((size_t)a[0]);
       }
+      if (g_ctrace) line("CT " + std::to_string(me) + " BB");     // from here on (barrier, dumps, collective queries) the caches may be flushed at any time
       world.barrier();
       // ---- raw local state (the rank's own part of every container) -----------------------------
       std::string pre = "D " + std::to_string(e) + " " + std::to_string(me) + " ";
